@@ -42,7 +42,7 @@ type Spec struct {
 	// ShrinkSets: named alternatives to Shrink; a harness selects one with "shrink_set" (the program is loaded once
 	// per distinct set)
 	ShrinkSets map[string][]ShrinkSpec `json:"shrink_sets"`
-	ExtraFiles   []string      `json:"extra_files"` // additional harness prefixes to overlay
+	ExtraFiles []string                `json:"extra_files"` // additional harness prefixes to overlay
 }
 
 type KnownFinding struct {
@@ -238,6 +238,8 @@ func (it *Interp) resetPath(prefix []int) {
 	it.pcSeen = map[*Term]bool{}
 	it.varRange = map[*Term][2]int64{}
 	it.ivMemo = map[*Term][3]int64{}
+	it.realivReset()
+	it.poison, it.poisonMemo, it.poisonSeq = nil, nil, 0
 	it.initThreads()
 }
 
@@ -417,6 +419,9 @@ func (r *Report) merge(o *Report) {
 	r.BranchQueries += o.BranchQueries
 	r.Transitions += o.Transitions
 	r.AssertSyntactic += o.AssertSyntactic
+	r.PolyDecided += o.PolyDecided
+	r.PoisonValues += o.PoisonValues
+	r.PolyConfirmed += o.PolyConfirmed
 	r.AssertBatched += o.AssertBatched
 	r.UnknownBranches += o.UnknownBranches
 	r.MapRanges += o.MapRanges
@@ -801,6 +806,12 @@ func main() {
 		if h.RealLimit == 0 {
 			h.RealLimit = 1e6
 		}
+		if h.PolyConfirmEvery == 0 {
+			h.PolyConfirmEvery = 16
+			if *tier == "thorough" {
+				h.PolyConfirmEvery = 4
+			}
+		}
 		if h.NearEps == 0 {
 			h.NearEps = 1e-6
 		}
@@ -1029,7 +1040,7 @@ func main() {
 			"name": rep.Cfg.Name, "func": rep.Cfg.Func, "mode": rep.Cfg.Mode, "bounds": rep.Cfg.Bounds, "paths": rep.Paths, "completed": rep.Completed,
 			"killed_infeasible": rep.Killed, "panic_paths": rep.PanicPaths, "branch_queries": rep.BranchQueries,
 			"assert_queries": map[string]int{"unsat": rep.AssertQ[0], "sat": rep.AssertQ[1], "unknown": rep.AssertQ[2]},
-			"assertions":     rep.AssertsSeen, "assertions_decided_syntactically": rep.AssertSyntactic, "assertions_discharged_in_batched_queries": rep.AssertBatched, "solver_time_s": rep.SolverTime, "wall_s": rep.Wall, "steps": rep.Steps,
+			"assertions":     rep.AssertsSeen, "assertions_decided_syntactically": rep.AssertSyntactic, "comparisons_decided_by_polynomial_bounds": rep.PolyDecided, "nan_poison_values": rep.PoisonValues, "polynomial_bound_verdicts_cross_checked_by_solver": rep.PolyConfirmed, "assertions_discharged_in_batched_queries": rep.AssertBatched, "solver_time_s": rep.SolverTime, "wall_s": rep.Wall, "steps": rep.Steps,
 			"outside_model": rep.Outside, "unwind": rep.Unwind, "inconclusive": rep.Inconclusive, "map_order": rep.Cfg.MapOrder, "sched": rep.Cfg.Sched,
 			"race_monitor": rep.Cfg.Race, "note": rep.Cfg.Note, "shrink_set": rep.Cfg.ShrinkSet, "query_timeout_ms": rep.Cfg.TimeoutMs, "unwind_bound": rep.Cfg.Unwind,
 		})
